@@ -21,7 +21,7 @@ type PropDef struct {
 	// Drive explores case number k (a case may execute many runs).
 	Drive func(c *DriveCtx, r *Rng, k int)
 	// Oracle: end-of-run checks for this property (monitors run always).
-	Oracle func(res *Result)
+	Oracle func(c *DriveCtx, res *Result)
 	// QuickCases: number of cases of the quick tier (thorough is time-boxed).
 	QuickCases int
 	// Exhaustive marks the quick tier as a complete enumeration of its corpus × single faults.
@@ -105,7 +105,7 @@ func (c *DriveCtx) Exec(spec *RunSpec) *Result {
 					res.Harness = fmt.Sprintf("oracle panic: %v", r)
 				}
 			}()
-			c.P.Oracle(res)
+			c.P.Oracle(c, res)
 		}()
 		res.Viol = res.Sim.Viol
 	}
